@@ -434,6 +434,10 @@ def judge(ctx, o, text, v, bl2, ol, om, bl, negative, case, bm=()):
         # the other documented route to the same result: parse without cleanup, clean up afterwards
         try:
             t_raw = parser.parse(text, do_cleanup=False)
+            if len(text) % 2:
+                # (the raw tree is kept; a copy of it is cleaned up)
+                t_raw = t_raw.clone()
+                ctx.count("copies_of_raw_trees_cleaned_up")
             parser.cleanup(t_raw)
         except Exception as err:
             ctx.violation("parse-raises", {"type": type(err).__name__, "msg": str(err)[:200], "route": "cleanup()"}, case)
@@ -554,6 +558,65 @@ def blank_delimited_case(ctx, rng):
         ctx.violation("value-differs-from-data", {"got": repr(got)[:300], "expected": repr(want)[:300]}, case)
 
 
+TOK_KW = r"""(?P<SPACE>\s+)|(?P<COMMENT>\#.*)|(?P<WORD>[a-z]+)|"(?P<QSTR>[a-z ]*)"|(?P<BO>\[)|(?P<BC>\])|(?P<CO>\{)|(?P<CC>\})
+            |(?P<COMMA>,)|(?P<COLON>:)"""
+_KW_PARSER = []
+
+
+def keyword_case(ctx, rng):
+    """a tokenizer with keywords ('in', 'null' - when they are WORDS) and quoted strings whose text may be
+    spelled like a keyword: items and keys of that kind are items and keys like any other"""
+    if not _KW_PARSER:
+        _KW_PARSER.append(llparser.LLParser(
+            TOK_KW, synonyms={'BO': '[', 'BC': ']', 'CO': '{', 'CC': '}', 'COMMA': ',', 'COLON': ':'},
+            keywords={('WORD', 'in'): 'IN', ('WORD', 'null'): 'NULL'},
+            productions={'E': [('WORD', 'IN', 'LIST'), ('MAP',)],
+                         'LIST': ListProds('[', 'ITEM', ',', ']'),
+                         'ITEM': [('WORD',), ('QSTR',), ('NULL',), ('LIST',), ('MAP',)],
+                         'MAP': MapProds('{', 'QSTR', ':', 'ITEM', ',', '}')}))
+    ctx.evaluated()
+
+    def gen(d):
+        r = rng.random()
+        if d < 3 and r < 0.2:
+            return [gen(d + 1) for _ in range(rng.choice([0, 1, 2, 3]))]
+        if d < 3 and r < 0.35:
+            return {rng.choice(["in", "null", "k", "x y", ""]): gen(d + 1) for _ in range(rng.choice([0, 1, 2, 3]))}
+        return rng.choice(["a", "bc", "null", '"in"', '"null"', '"x y"', '""', '"a"'])
+
+    def text_of(v):
+        if isinstance(v, str):
+            return v
+        if isinstance(v, list):
+            return "[" + ws(rng) + (ws(rng) + "," + ws(rng)).join(text_of(x) for x in v) + ws(rng) + "]"
+        return "{" + ws(rng) + (ws(rng) + "," + ws(rng)).join('"%s"' % k + ws(rng) + ":" + ws(rng) + text_of(x)
+                                                               for k, x in v.items()) + "}"
+
+    def want_of(v):
+        if isinstance(v, str):
+            return v[1:-1] if v.startswith('"') else v
+        if isinstance(v, list):
+            return [want_of(x) for x in v]
+        return ('DICT', [(k, want_of(x)) for k, x in v.items()])
+    if rng.random() < 0.6:
+        data = [gen(1) for _ in range(rng.choice([0, 1, 2, 4]))]
+        text = "x in " + text_of(data)
+    else:
+        data = {rng.choice(["in", "null", "k", ""]): gen(1) for _ in range(rng.choice([0, 1, 2, 3]))}
+        text = text_of(data)
+    case = {"options": {"keywords_and_quoted_strings": True}, "text": text}
+    try:
+        got = norm(_KW_PARSER[0].parse(text))
+    except Exception as err:
+        ctx.violation("valid-text-rejected", {"type": type(err).__name__, "msg": str(err)[:200]}, case)
+        return
+    ctx.count("texts_with_strings_spelled_like_keywords_parsed")
+    if isinstance(got, tuple) and got[:2] == ('TE', 'E'):
+        got = got[2][2] if len(got[2]) == 3 else got[2][0]
+    if got != want_of(data):
+        ctx.violation("value-differs-from-data", {"got": repr(got)[:300], "expected": repr(want_of(data))[:300]}, case)
+
+
 def template_start_case(ctx, rng):
     """the start symbol of the grammar is itself a list / map template (no wrapper production above it)"""
     kind = rng.choice(["list", "map"])
@@ -606,6 +669,8 @@ def run_shard(ctx):
                 template_start_case(ctx, rng)
             for _ in range(6):
                 blank_delimited_case(ctx, rng)
+            for _ in range(6):
+                keyword_case(ctx, rng)
         o = gen_options(rng)
         try:
             mk_parser(o)
